@@ -305,7 +305,7 @@ def show_attributes(self, out, prefix, attributes_level, print_width):
                         value = "True"
                 print(prefix + "  ." + name, "=", value, file=out)
             else:
-                indent = " " * (len(prefix) + 3 + len(name) + 3)
+                indent = prefix + " " * (3 + len(name) + 3)
                 fits_on_one_line = len(indent + value) < print_width
                 if not is_standard_identifier(value) or not fits_on_one_line:
                     value = str(tokenizer.word(value=value, quote_token='"'))
@@ -694,7 +694,7 @@ class definition(slots_getstate_setstate):
         line = prefix + hash + ".".join(merged_names + [self.name])
         if self.name != "include":
             line += " ="
-        indent = " " * len(line)
+        indent = prefix + " " * (len(line) - len(prefix))
         if self.deprecated:
             print(prefix + "# WARNING: deprecated parameter", file=out)
         for word in self.words:
